@@ -183,6 +183,23 @@ def run(tier, seed, out, drv, facts):
             what = (f"PyTree[int, {spellings[k - 2]!r}] answers {vs[k]} but the same structure written {canonical[k - 2]!r} answers {vc[k]}" if k is not None and k >= 2
                     else f"bindings differ between the two spellings: {bs} vs {bc}")
             out.violation("spelling", what + " (whitespace only separates the names)", {"program": prog_for(spellings), "canonical_program": prog_for(canonical), "spelling": True})
+    # a structure-named check that RAISES in the middle of its leaves (an unbound symbolic axis, a user class whose
+    # `__instancecheck__` raises): the error is handled, and structure names keep working in the same thread afterwards
+    raising = [("arr q+1", gen_prog.arr_type("q+1"), gen_prog.arr_val([3])),
+               ("user class raising", {"t": "user", "accept": ["A"], "faults": {"B": "EXC"}}, {"t": "opaque", "tag": "B"}),
+               ("user class raising BaseException", {"t": "user", "accept": ["A"], "faults": {"B": "BASEEXC"}}, {"t": "opaque", "tag": "B"})]
+    for rname, rlt, rleaf in raising:
+        for t, x in itertools.product(trees[1:5], repeat=2):
+            bad_tree = {"t": "tuple", "xs": [rleaf, rleaf]}
+            body = [{"op": "check", "l": {"t": "pytree", "l": rlt, "s": "R"}, "x": bad_tree},
+                    {"op": "check", "l": {"t": "pytree", "l": INT, "s": "T"}, "x": t}, {"op": "print"}]
+            for form in ("T", "T ...", "... T", "T T"):
+                body.append({"op": "check", "l": {"t": "pytree", "l": INT, "s": form}, "x": x})
+            body.append({"op": "print"})
+            prog = [{"op": "ctx", "body": body, "exit": "ret"}]
+            got, want = progcheck.compare_program(out, drv, facts, prog, "after-raising-check", rng=rng, as_violation=as_violation, shrink=False)
+            out.case(("after-raising-check", rname, json.dumps(t), json.dumps(x)), True, sample={"raising_leaf_type": rname, "T": t, "x": x, "verdicts": progcheck.verdicts(got)})
+            impl_prog.residual_state(reset=True)
     # unbound names inside composites, and None at top level
     for form in ["S T", "T S", "T ...", "... T", "U", "T U", "... U"]:
         for bind_t in (True, False):
